@@ -42,7 +42,9 @@ macro_rules! trs3 {
                 let (qv, lq) = unit_quat::<$S>(&mut rng, it / 8);
                 let q = <$Q>::from_array(qv);
                 let s = <$V3>::new(scale_val(&mut rng, pattern & 1 != 0) as $S, scale_val(&mut rng, pattern & 2 != 0) as $S, scale_val(&mut rng, pattern & 4 != 0) as $S);
-                let t = <$V3>::new(rng.logmag(-6.0, 10.0) as $S, rng.logmag(-6.0, 10.0) as $S, if it % 5 == 0 { 0.0 } else { rng.logmag(-6.0, 10.0) as $S });
+                // "all finite translations": every 7th one reaches up to the largest finite magnitudes
+                let tmax = if it % 7 == 3 { <$S>::MAX_EXP as f64 - 2.0 } else { 10.0 };
+                let t = <$V3>::new(rng.logmag(-6.0, tmax) as $S, rng.logmag(-6.0, tmax) as $S, if it % 5 == 0 { 0.0 } else { rng.logmag(-6.0, tmax) as $S });
                 let qf = [q.x as f64, q.y as f64, q.z as f64, q.w as f64];
                 let sf = [s.x as f64, s.y as f64, s.z as f64];
                 let tf = [t.x as f64, t.y as f64, t.z as f64];
@@ -176,7 +178,8 @@ macro_rules! trs2 {
                 let pattern = (it % 4) as usize;
                 let ang = match it % 3 { 0 => rng.range(-3.2, 3.2), 1 => rng.range(-13.0, 13.0), _ => core::f64::consts::FRAC_PI_2 * rng.int_in(-4, 4) as f64 + rng.range(-1e-3, 1e-3) } as $S;
                 let s = <$V2>::new(scale_val(&mut rng, pattern & 1 != 0) as $S, scale_val(&mut rng, pattern & 2 != 0) as $S);
-                let t = <$V2>::new(rng.logmag(-6.0, 10.0) as $S, rng.logmag(-6.0, 10.0) as $S);
+                let tmax = if it % 7 == 3 { <$S>::MAX_EXP as f64 - 2.0 } else { 10.0 };
+                let t = <$V2>::new(rng.logmag(-6.0, tmax) as $S, rng.logmag(-6.0, tmax) as $S);
                 let (sn, cs) = (ang as f64).sin_cos();
                 let sf = [s.x as f64, s.y as f64];
                 // T * R * S
